@@ -928,6 +928,19 @@ func c07gen(c *h.Ctx) []c07case {
 			}
 		}
 	}
+	// A'. several messages on ONE stream whose sizes grow past the initial buffer (512 bytes), in steps that
+	//     land on either side of what growing the buffer by a factor gives
+	for _, sizes := range [][]int{{624, 1024}, {600, 1000, 1600, 2600}, {520, 530, 4096, 4104}, {504, 505, 1016, 1017, 2040}, {700, 5000, 5600, 12000}, {3000, 700, 3500}} {
+		for _, k := range []int{7, 512, 1000, 4096, 1 << 20} {
+			b := &c07builder{}
+			for i, n := range sizes {
+				b.msg(uint32(0x420001+i), c07lcg(n+i, n))
+			}
+			cs := b.mk("A-growing-sizes", MiB, c07uniform(k, 40000, false), 0)
+			cs.NoRow = true
+			add(cs)
+		}
+	}
 	// B. three messages (8, 16, 24 bytes), every truncation offset, uniform chunk sizes
 	for cut := 0; cut <= 48; cut++ {
 		for _, k := range []int{1, 2, 3, 5, 7, 8, 9, 13, 16, 1000} {
